@@ -163,3 +163,74 @@ theorem convertCds_complete {c : Ctx} (hc : regionOK c = true) (views : List Gen
   simp [orfsCompleteB, convertCds, hp, hs, hnd]
 
 end ASV.Packing
+
+namespace ASV.Packing
+open ASV ASV.Packing.Spec
+
+set_option linter.unusedSimpArgs false in
+/-- for genes of one or two exons the hypothesis of the gene theorems follows from the shape of
+    the location: `Feature.start/end`, `crosses_origin` and `is_contained_by(parts[-1])` computed
+    from the location satisfy `viewOK` -/
+theorem geneView_ok {c : Ctx} {g : Loc} (hc : regionOK c = true) (hg : geneOK c g = true) :
+    viewOK c (geneView c g) = true := by
+  obtain ⟨region, L, circ⟩ := c
+  simp only [regionOK, Bool.and_eq_true] at hc
+  rcases collOK_cases hc.1 with ⟨R, rfl, hR1, hR2, hR3⟩ | ⟨S, E, rfl, hE1, hE2, hE3⟩
+  · -- ordinary region
+    cases g with
+    | simple p =>
+      obtain ⟨plo, phi, ps⟩ := p
+      simp only [geneOK, hullIn, Bool.and_eq_true, decide_eq_true_eq] at hg
+      cases ps <;>
+        simp [viewOK, geneView, bridgesOrigin, locationContainsOther, Loc.parts, partContains, Ctx.lastPart,
+          strandInt, Loc.strand] <;> grind
+    | compound ps =>
+      match ps, hg with
+      | [], hg => simp [geneOK] at hg
+      | [_], hg => simp [geneOK] at hg
+      | _ :: _ :: _ :: _, hg => simp [geneOK] at hg
+      | [⟨plo, phi, ps⟩, ⟨qlo, qhi, qs⟩], hg =>
+        simp only [geneOK, Bool.and_eq_true, Bool.or_eq_true, beq_iff_eq] at hg
+        obtain ⟨⟨hst, hs2⟩, hg⟩ := hg
+        subst hst
+        rcases hs2 with rfl | rfl
+        · try simp only [beq_self_eq_true, ↓reduceIte] at hg
+          split at hg <;>
+            simp only [hullIn, bridgeIn, Bool.and_eq_true, decide_eq_true_eq, beq_iff_eq] at hg <;>
+            simp [viewOK, geneView, bridgesOrigin, orderInvalid, locationContainsOther, Loc.parts, partContains,
+              Ctx.lastPart, strandInt, Loc.strand, locStart, locEnd] <;> grind
+        · try simp only [show (Strand.rev == Strand.fwd) = false from rfl, Bool.false_eq_true, ↓reduceIte] at hg
+          split at hg <;>
+            simp only [hullIn, bridgeIn, Bool.and_eq_true, decide_eq_true_eq, beq_iff_eq] at hg <;>
+            simp [viewOK, geneView, bridgesOrigin, orderInvalid, locationContainsOther, Loc.parts, partContains,
+              Ctx.lastPart, strandInt, Loc.strand, locStart, locEnd] <;> grind
+  · -- origin-spanning region
+    cases g with
+    | simple p =>
+      obtain ⟨plo, phi, ps⟩ := p
+      simp only [geneOK, hullIn, Bool.and_eq_true, Bool.or_eq_true, decide_eq_true_eq] at hg
+      cases ps <;>
+        simp [viewOK, geneView, bridgesOrigin, locationContainsOther, Loc.parts, partContains, Ctx.lastPart,
+          strandInt, Loc.strand] <;> grind
+    | compound ps =>
+      match ps, hg with
+      | [], hg => simp [geneOK] at hg
+      | [_], hg => simp [geneOK] at hg
+      | _ :: _ :: _ :: _, hg => simp [geneOK] at hg
+      | [⟨plo, phi, ps⟩, ⟨qlo, qhi, qs⟩], hg =>
+        simp only [geneOK, Bool.and_eq_true, Bool.or_eq_true, beq_iff_eq] at hg
+        obtain ⟨⟨hst, hs2⟩, hg⟩ := hg
+        subst hst
+        rcases hs2 with rfl | rfl
+        · try simp only [beq_self_eq_true, ↓reduceIte] at hg
+          split at hg <;>
+            simp only [hullIn, bridgeIn, Bool.and_eq_true, Bool.or_eq_true, decide_eq_true_eq, beq_iff_eq] at hg <;>
+            simp [viewOK, geneView, bridgesOrigin, orderInvalid, locationContainsOther, Loc.parts, partContains,
+              Ctx.lastPart, strandInt, Loc.strand, locStart, locEnd] <;> grind
+        · try simp only [show (Strand.rev == Strand.fwd) = false from rfl, Bool.false_eq_true, ↓reduceIte] at hg
+          split at hg <;>
+            simp only [hullIn, bridgeIn, Bool.and_eq_true, Bool.or_eq_true, decide_eq_true_eq, beq_iff_eq] at hg <;>
+            simp [viewOK, geneView, bridgesOrigin, orderInvalid, locationContainsOther, Loc.parts, partContains,
+              Ctx.lastPart, strandInt, Loc.strand, locStart, locEnd] <;> grind
+
+end ASV.Packing
